@@ -1174,12 +1174,13 @@ func runL2(seed uint64, idx int, o *out, tier string) {
 		// write error ("not resend for last")
 		lastPush := pushes[len(pushes)-1].at
 		deadline := lastPush.Add(timerBudget + 5*time.Second)
-		if scen == 6 {
-			deadline = time.Now() // the sender never came back within 10x WriteTimeout: nothing more to wait for
-			if sinks[0].connCount() >= 2 {
-				deadline = time.Now().Add(timerBudget + 5*time.Second)
-			}
+		if scen == 5 || scen == 6 {
+			deadline = time.Now().Add(40 * time.Second) // ~10 MB through a 4 KiB receive window; normally 1-3 s
 		}
+		if scen == 6 && sinks[0].connCount() < 2 {
+			deadline = time.Now() // the sender never came back within 10x WriteTimeout: nothing more to wait for
+		}
+		timedOut := false
 		var data map[uint32]frameRec
 		var st balancer.EgressStats
 		quietSince := time.Now()
@@ -1194,10 +1195,17 @@ func runL2(seed uint64, idx int, o *out, tier string) {
 			if nf != lastFrames {
 				lastFrames, quietSince = nf, time.Now()
 			}
-			if bad || time.Now().After(deadline) {
+			if bad {
 				break
 			}
-			if drained && (scen == 5 || scen == 6 || uint64(len(data))+st.WriteErrors >= st.ForwardedPackets) && time.Since(quietSince) > 600*time.Millisecond {
+			if time.Now().After(deadline) {
+				timedOut = true
+				break
+			}
+			// finished = the last accepted packet has arrived (streams are in order, so everything the upstream will ever get
+			// on that connection before it has been read already) and nothing new came for a moment (late duplicates)
+			_, lastIn := data[pushes[len(pushes)-1].seq]
+			if drained && lastIn && time.Since(quietSince) > 300*time.Millisecond {
 				break
 			}
 			time.Sleep(20 * time.Millisecond)
@@ -1207,6 +1215,9 @@ func runL2(seed uint64, idx int, o *out, tier string) {
 		lost := int64(st.ForwardedPackets) - int64(len(data))
 		if st.ForwardedPackets+st.DroppedPackets != uint64(len(pushes)) || st.DroppedPackets != 0 {
 			o.Viol("e2e-uncounted", "%d packets handed in, forwarded=%d dropped=%d (the buffers never filled)", len(pushes), st.ForwardedPackets, st.DroppedPackets)
+		} else if timedOut && !(scen == 6 && (sinks[0].connCount() < 2 || st.WriteErrors == 0)) {
+			o.Viol("e2e-no-recovery", "the last accepted packet did not reach the upstream within the budget after the connection failure (delivered %d of %d forwarded, write errors %d; scenario %d: %s)",
+				len(data), st.ForwardedPackets, st.WriteErrors, scen, strings.Join(desc, " ; "))
 		} else if scen == 6 && (sinks[0].connCount() < 2 || st.WriteErrors == 0) {
 			// ---- direct oracle: bounded delay under an upstream connection failure (stalled, never reset)
 			b0 := balancer.VerifBuf(e, 0)
